@@ -648,6 +648,20 @@ func (s *shape) any(pred func(n syntax.Node) bool) bool {
 	return found
 }
 
+// anyBelow reports whether pred holds for some node at or below root.
+func anyBelow(root syntax.Node, pred func(n syntax.Node) bool) bool {
+	found := false
+	safely(func() {
+		syntax.Walk(root, func(n syntax.Node) bool {
+			if !found && n != nil && pred(n) {
+				found = true
+			}
+			return !found
+		})
+	})
+	return found
+}
+
 func sortedKeys(m map[string]int) []string {
 	ks := make([]string, 0, len(m))
 	for k := range m {
@@ -1079,6 +1093,58 @@ func c01Excluded(tc l4Case, f *syntax.File, sh *shape) string {
 		return ok && strings.HasPrefix(l.Value, "(")
 	}) {
 		return "C01-zsh-redirect-paren-word"
+	}
+	// C01-zsh-redirect-bang-word: zsh `> !1` is printed `>!1`; `>!` `>>!` `>&!` `&>!` `&>>!` are the
+	// zsh spellings of the clobbering operators.
+	if tc.Lang == syntax.LangZsh && !o.SpaceRedir && sh.any(func(n syntax.Node) bool {
+		r, ok := n.(*syntax.Redirect)
+		if !ok || r.Word == nil || len(r.Word.Parts) == 0 {
+			return false
+		}
+		switch r.Op {
+		case syntax.RdrOut, syntax.AppOut, syntax.DplOut, syntax.RdrAll, syntax.AppAll:
+		default:
+			return false
+		}
+		l, ok := r.Word.Parts[0].(*syntax.Lit)
+		return ok && strings.HasPrefix(l.Value, "!")
+	}) {
+		return "C01-zsh-redirect-bang-word"
+	}
+	// C01-zsh-dollar-hash-backquote-escape (root cause in the parser): inside backquotes the zsh
+	// `$#name` look-ahead sees the raw backslash of `\$`, so `$#\$` is `$#` + `$…`; printed in
+	// `$( )` form it is `$#$…`, the length of `$$`.
+	if tc.Lang == syntax.LangZsh && strings.Contains(tc.Src, "#\\$") && sh.any(func(n syntax.Node) bool {
+		cs, ok := n.(*syntax.CmdSubst)
+		if !ok || !cs.Backquotes {
+			return false
+		}
+		return anyBelow(cs, func(m syntax.Node) bool {
+			var parts []syntax.WordPart
+			switch x := m.(type) {
+			case *syntax.Word:
+				parts = x.Parts
+			case *syntax.DblQuoted:
+				parts = x.Parts
+			}
+			for i, p := range parts {
+				pe, ok := p.(*syntax.ParamExp)
+				if !ok || !pe.Short || pe.Length || pe.Param == nil || pe.Param.Value != "#" || i+1 >= len(parts) {
+					continue
+				}
+				switch y := parts[i+1].(type) {
+				case *syntax.Lit:
+					if strings.HasPrefix(y.Value, "$") {
+						return true
+					}
+				case *syntax.ParamExp, *syntax.CmdSubst, *syntax.ArithmExp:
+					return true
+				}
+			}
+			return false
+		})
+	}) {
+		return "C01-zsh-dollar-hash-backquote-escape"
 	}
 	// C01-escaped-cr-before-newline: a word ending in backslash + carriage return printed at the
 	// end of a line makes `\` CR LF, which the lexer reads as an escaped newline.
